@@ -687,6 +687,12 @@ impl<'g> TestList<'g> {
         }
     }
 
+    /// Verification hook: replaces the Cargo `[env]` map carried by this test list.
+    #[cfg(feature = "verif-hooks")]
+    pub fn verif_set_env(&mut self, env: EnvironmentMap) {
+        self.env = env;
+    }
+
     fn process_skipped(
         test_binary: RustTestArtifact<'g>,
         reason: BinaryMismatchReason,
@@ -1166,6 +1172,43 @@ impl<'a> TestInstance<'a> {
             &self.suite_info.package,
             &self.suite_info.non_test_binaries,
         )
+    }
+}
+
+/// Verification hook: the command built by `TestInstance::make_command`, as plain data.
+#[cfg(feature = "verif-hooks")]
+#[derive(Clone, Debug)]
+pub struct VerifCommand {
+    /// The program.
+    pub program: OsString,
+    /// The arguments after the program.
+    pub args: Vec<OsString>,
+    /// Explicit environment writes (a `None` value is a removal), as the command records them.
+    pub envs: Vec<(OsString, Option<OsString>)>,
+    /// The working directory, if set.
+    pub cwd: Option<PathBuf>,
+}
+
+#[cfg(feature = "verif-hooks")]
+impl TestInstance<'_> {
+    /// Verification hook: runs [`TestInstance::make_command`] and returns what it built.
+    pub fn verif_make_command(
+        &self,
+        ctx: &TestExecuteContext<'_>,
+        test_list: &TestList<'_>,
+        extra_args: &[String],
+    ) -> VerifCommand {
+        let mut cmd = self.make_command(ctx, test_list, extra_args);
+        let command = cmd.command_mut();
+        VerifCommand {
+            program: command.get_program().to_owned(),
+            args: command.get_args().map(|a| a.to_owned()).collect(),
+            envs: command
+                .get_envs()
+                .map(|(k, v)| (k.to_owned(), v.map(|v| v.to_owned())))
+                .collect(),
+            cwd: command.get_current_dir().map(|d| d.to_owned()),
+        }
     }
 }
 
